@@ -90,7 +90,8 @@ def run(facts, rep):
     for b in (tb, ps, rs):
         rep.saw(b)
     try:
-        rets = [p.ret for p in SymEx(tb, max_paths=20000).run() if p.end == 'return']
+        from symex import private_helper
+        rets = [p.ret for p in SymEx(tb, max_paths=20000, inline=private_helper()).run() if p.end == 'return']
         if len(rets) != 1:
             raise Bad('trans has %d return shapes' % len(rets))
         r = rets[0]
@@ -159,17 +160,41 @@ def run(facts, rep):
     else:
         rep.violation('E19.H3-flags', inst, 'snf flags %s but the assembly unwraps s1.%s / s2.%s: an unrequested transform is None and unwrap() panics' % (flags, sorted(used1), sorted(used2)), where=ps.where())
     # H4
-    rr = [p.ret for p in SymEx(rs, max_paths=20000).run() if p.end == 'return']
+    allp = SymEx(rs, havoc_loops=True, max_paths=20000).run()
+    rr = [p.ret for p in allp if p.end == 'return']
     inst = 'HomologyCalc::result|rank = n - r1 - r2, torsion = non-unit factors of s1 in diagonal order'
     if len(rr) != 1 or strip(rr[0])[0] != 'tuple' or len(strip(rr[0])[1]) != 2:
         rep.indet('E19.H4: HomologyCalc::result does not return one (rank, tors) pair')
         return
     rank_t, tors_t = strip(rr[0])[1]
     probs = []
-    if sk(rank_t) != 'SubWithOverflow(SubWithOverflow(n, r1).0, r2).0':
+    # the rank by value: n, r1, r2 are the only atoms; folded at three points
+    from dtree import DTree, Stuck
+    dt = DTree(facts)
+
+    def atom_at(n_, r1_, r2_):
+        def atom(t, ev):
+            x = sk(t).replace('&', '').replace('*', '')
+            if x in ('n', 'nrows(result(S1))', 'nrows(result(arg1))', 'ncols(result(S2))', 'ncols(result(arg2))'):
+                return (n_,)
+            if x in ('r1', 'rank(S1)', 'rank(arg1)'):
+                return (r1_,)
+            if x in ('r2', 'rank(S2)', 'rank(arg2)'):
+                return (r2_,)
+            return None
+        return atom
+    try:
+        vals = [(dt.ev(rank_t, {}, atom_at(*pt)), pt[0] - pt[1] - pt[2]) for pt in ((10, 3, 2), (7, 0, 4), (5, 5, 0))]
+    except Stuck as e:
+        rep.indet('E19.H4: rank formula outside the recognised fragment: %s (%s)' % (sk(rank_t)[:120], str(e)[:60]))
+        return
+    if any(a != b for a, b in vals):
         probs.append('rank is computed as %s, expected n - rank(s1) - rank(s2)' % sk(rank_t))
     try:
-        sel = torsion_chain(facts, rs, tors_t)
+        if strip(tors_t)[0] == 'loopvar':
+            sel = _torsion_loop(facts, rs, allp, strip(tors_t)[2])
+        else:
+            sel = torsion_chain(facts, rs, tors_t)
     except Bad as e:
         rep.indet('E19.H4: torsion list outside the recognised fragment: %s' % e)
         return
@@ -263,6 +288,58 @@ def torsion_chain(facts, owner, t):
             raise Bad('adapter %s' % n)
         t = strip(a[0])
     return {'chain': chain, 'revs': revs, 'select': select}
+
+
+def _torsion_loop(facts, owner, paths, L):
+    """the torsion list built by `for a in <chain over s1.factors()> { if <is_unit test> {..}; tors.push(a.clone()) }`:
+    the same reading as the adapter chain, the loop body being one more filter"""
+    entry = {}
+    for p in paths:
+        for (fid, bb, l), v in p.state.loop_entry.items():
+            if fid == 0 and strip(v)[0] != 'loopvar':
+                entry.setdefault(l, set()).add(v)
+    if {sk(v) for v in entry.get(L, ())} not in ({'new()'}, {'with_capacity(0)'}):
+        raise Bad('the torsion vector does not start empty')
+    kinds = set()
+    src = None
+    for p in paths:
+        if p.end != 'backedge':
+            continue
+        unit = None
+        for e in p.branches():
+            m = re.match(r'is_unit\(next\(&mut _(\d+)\)\.Some\.0\)$', sk(e.term).replace('*', ''))
+            if m:
+                unit = e.value != 0
+        pushes = [e for e in p.calls('push', 'insert', 'extend', 'append', 'push_front') if e.args and e.args[0] == ('mref', (('local', L), ()))]
+        for e in p.calls():
+            if e.args and e.args[0] == ('mref', (('local', L), ())) and e not in pushes:
+                raise Bad('the torsion vector is modified by %s' % e.name.split('::')[-1])
+        if any(e.name.split('::')[-1] != 'push' for e in pushes) or len(pushes) > 1:
+            raise Bad('the torsion vector is filled by %s' % [e.name.split('::')[-1] for e in pushes])
+        if pushes:
+            v = strip(pushes[0].args[1])
+            if not (v[0] == 'field' and v[2] == 'Some.0' and v[1][0] == 'call' and v[1][1].endswith('Iterator::next') and v[1][2][0][0] == 'mref'):
+                raise Bad('the pushed value is not the scanned factor: ' + sk(pushes[0].args[1])[:60])
+            it = v[1][2][0][1][0][1]
+            cand = entry.get(it, set())
+            if len(cand) != 1:
+                raise Bad('source of the scanned iterator not found')
+            src = next(iter(cand))
+            if unit is None:
+                kinds.add('all')
+            else:
+                kinds.add('unit' if unit else 'nonunit')
+        elif unit is None:
+            raise Bad('an iteration neither pushes nor tests is_unit')
+    if src is None or len(kinds) != 1:
+        raise Bad('the loop pushes %s factors' % sorted(kinds))
+    sel = torsion_chain(facts, owner, src)
+    k = kinds.pop()
+    if k != 'all':
+        sel['select'] = k if sel['select'] in ('all', k) else 'no'
+    sel['chain'] = ['for .. push'] + sel['chain']
+    return sel
+
 
 
 def _rev_below(t):
